@@ -76,18 +76,57 @@ def rule_functions(ck):
     I, (DEC, ENC) = fold_tables(repo)
     ST = sym.var("string", "str")
     # decode: "".join(DEC[b][0] for b in string), len(string)
-    p = I.explore(lambda: I.call(I.module_get("bk_encoding", "decode"), [sym.var("data", "bytes")], {}))
-    ck.instance("decode", {"decode(data)": repr(p[0].value)}, fn="bk_encoding::decode")
     D = sym.var("data", "bytes")
     exp = (sym.op("joinmap", "", sym.op("item", sym.op("item", sym.op("const", id(DEC)), sym.op("elem", D)), 0), D), sym.op("len", D))
-    if len(p) != 1 or p[0].kind != "return" or p[0].value != exp:
-        ck.violation("bk_encoding::decode", f"decode() is not ''.join(DECODING_TABLE[b][0] for b in data), len(data): {p[0].value!r}", construct="decode body")
+    try:
+        p = I.explore(lambda: I.call(I.module_get("bk_encoding", "decode"), [D], {}))
+        shape_ok = len(p) == 1 and p[0].kind == "return" and p[0].value == exp
+        shown = repr(p[0].value)
+    except Unsupported as ex:
+        shape_ok, shown = False, f"(no closed form: {ex})"
+    ck.instance("decode", {"decode(data)": shown}, fn="bk_encoding::decode")
+    if not shape_ok:
+        # not the comprehension idiom: decide by complete valuation - every byte value once, in three arrangements
+        for arrangement, data in (("ascending", bytes(range(256))), ("descending", bytes(range(255, -1, -1))), ("each byte twice", bytes(b for b in range(256) for _ in (0, 1)))):
+            ps = I.explore(lambda data=data: I.call(I.module_get("bk_encoding", "decode"), [data], {}))
+            want = ("".join(DEC[b][0] for b in data), len(data))
+            ck.instance(("decode-valuation", arrangement), None, fn="bk_encoding::decode")
+            if len(ps) != 1 or ps[0].kind != "return" or tuple(ps[0].value) != want:
+                ck.violation("bk_encoding::decode", f"decode() of all 256 byte values ({arrangement}) is not ''.join(DECODING_TABLE[b][0] for b in data), len(data): {shown}", construct="decode body")
+                break
     # encode on a fully encodable symbolic string
-    p = I.explore(lambda: I.call(I.module_get("bk_encoding", "encode"), [ST], {}))
-    ck.instance("encode", {"encode(string)": repr(p[0].value)}, fn="bk_encoding::encode")
     exp = (sym.op("bytesof", sym.op("map", sym.op("item", sym.op("const", id(ENC)), sym.op("elem", ST)), ST)), sym.op("len", ST))
-    if len(p) != 1 or p[0].kind != "return" or p[0].value != exp:
-        ck.violation("bk_encoding::encode", f"encode() is not bytes(ENCODING_TABLE[c] for c in string), len(string): {p[0].value!r}", construct="encode body")
+    try:
+        p = I.explore(lambda: I.call(I.module_get("bk_encoding", "encode"), [ST], {}))
+        shape_ok = len(p) == 1 and p[0].kind == "return" and p[0].value == exp
+        shown = repr(p[0].value)
+    except Unsupported as ex:
+        shape_ok, shown = False, f"(no closed form: {ex})"
+    ck.instance("encode", {"encode(string)": shown}, fn="bk_encoding::encode")
+    if not shape_ok:
+        keys = sorted(ENC)
+        for arrangement, text in (("ascending", "".join(keys)), ("descending", "".join(reversed(keys))), ("each character twice", "".join(c + c for c in keys))):
+            ps = I.explore(lambda text=text: I.call(I.module_get("bk_encoding", "encode"), [text], {}))
+            want = (bytes(ENC[c] for c in text), len(text))
+            ck.instance(("encode-valuation", arrangement), None, fn="bk_encoding::encode")
+            got = ps[0].value if len(ps) == 1 and ps[0].kind == "return" else None
+            if got is None or (bytes(got[0]) if isinstance(got[0], (bytes, bytearray)) else got[0], got[1]) != want:
+                ck.violation("bk_encoding::encode", f"encode() of every character of the table ({arrangement}) is not bytes(ENCODING_TABLE[c] for c in string), len(string): {shown}", construct="encode body")
+                break
+    # refusal, by complete valuation over the Basic Latin .. Cyrillic blocks plus samples: every character that is not a key of the
+    # table is refused when it stands alone, and when it follows an encodable character
+    foreign = [chr(c) for c in list(range(0, 0x530)) + [0x2116, 0x2500, 0x25A0, 0x20AC, 0xFF21, 0x1F600] if chr(c) not in ENC]
+    for ch in foreign:
+        for text in (ch, "a" + ch):
+            ps = I.explore(lambda text=text: I.call(I.module_get("bk_encoding", "encode"), [text], {}))
+            if not (len(ps) == 1 and ps[0].kind == "raise" and ps[0].value.name == "UnicodeEncodeError"):
+                ck.violation("bk_encoding::encode", f"the character U+{ord(ch):04X} is not in the table, yet encode({text!r}) gives {ps[0].value if ps else None!r} instead of raising UnicodeEncodeError: "
+                                                    "it is assembled as some byte without a diagnostic", construct="encode accepts a foreign character")
+                break
+        else:
+            continue
+        break
+    ck.instance("refusal-valuation", {"characters outside the table tried": len(foreign)}, fn="bk_encoding::encode")
     # error position on the 2-class abstraction: 'a' encodable, U+65E5 not encodable (checked against the folded table)
     good, bad = "a", "日"
     if good not in ENC or bad in ENC:
